@@ -132,7 +132,8 @@ def _payload(ctx, rep, stub):
     for ctype in ('application/x-www-form-urlencoded', 'application/json'):
         for depth_rule in ('http://h/%(tk)s', 'role:zz or http://h/%(tk)s', 'rule:deep'):
             for target in ({'tk': 'tv'}, {'tk': 'tv', 'nested': {'a': [1, {'b': None}]}, 'n': 5},
-                           {'tk': 'tv', 'obj': object(), 'lst': [object.__new__(object)]}):
+                           {'tk': 'tv', 'obj': object(), 'lst': [object.__new__(object)]},
+                           {'tk': 'tv', 'ids': ('p1', 'p2'), 'flag': True, 'ratio': 1.5, 'none': None, 'empty': [], 'u': 'é'}):
                 if any(isinstance(x, list) and x and type(x[0]) is object for x in target.values()):
                     target = {k: v for k, v in target.items() if k != 'lst'}
                 conf = impl.new_conf()
@@ -218,6 +219,41 @@ def _tls(ctx, rep, stub, tmp):
                     rep.case(key=k, nontrivial=True)
                     n += 1
     rep.rules.append('%d TLS-file configurations (client cert / key / CA file unset, present, missing x verify on/off)' % n)
+    # a TLS file that comes and goes under the same path: every call must look at the file system as it is now
+    m = 0
+    for opt in ('remote_ssl_client_crt_file', 'remote_ssl_client_key_file', 'remote_ssl_ca_crt_file'):
+        flap = os.path.join(tmp, 'flap-%s.pem' % opt)
+        conf = impl.new_conf()
+        conf.set_override(opt, flap, group='oslo_policy')
+        conf.set_override('remote_ssl_verify_server_crt', True, group='oslo_policy')
+        e = policy.Enforcer(conf, use_conf=False)
+        e.set_rules(policy.Rules.from_dict({'p': 'https://h/x'}), use_conf=False)
+        hist = []
+        for present in (False, True, True, False, True, False, False):
+            if present:
+                with open(flap, 'w') as fh:
+                    fh.write('x')
+            elif os.path.exists(flap):
+                os.unlink(flap)
+            hist.append('present' if present else 'missing')
+            for enf in (e, None):
+                if enf is None:       # an enforcer created after the change
+                    enf = policy.Enforcer(conf, use_conf=False)
+                    enf.set_rules(policy.Rules.from_dict({'p': 'https://h/x'}), use_conf=False)
+                stub.calls = []
+                stub.plan = {'https://h/x': ('body', 'True', 200)}
+                out = impl.outcome(lambda: enf.enforce('p', {}, {}))
+                want = 'allow' if present else 'raise:RuntimeError'
+                if out != want or (not present and stub.calls):
+                    rep.fail('c16flap:%s|%s' % (opt, ','.join(hist)),
+                             'https check, %s at one path over time [%s]: outcome %s, expected %s; %d request(s) sent'
+                             % (opt, ', '.join(hist), out, want, len(stub.calls)), {'option': opt, 'history': list(hist)})
+                m += 1
+                rep.case(key='flap:%s:%d:%s' % (opt, len(hist), enf is e), nontrivial=True)
+        if os.path.exists(flap):
+            os.unlink(flap)
+    rep.stat('tls_flapping_file_calls', m)
+    rep.rules.append('%d https calls while the configured client cert / key / CA file appears and disappears under one path' % m)
 
 
 def replay(ctx, rep, data):
